@@ -20,7 +20,7 @@ RULE = ("scalars from boundary classes (1, 2, n-1, n-2, 2^k, 2^k-1, 1..31 leadin
         "negatives, byte strings of every length 0..40 except 32, checksummed WIFs carrying such scalars or wrong payload "
         "lengths; SEC rejection: x with no square root, x >= p, wrong y, every prefix byte 0..255, every length 0..70, hybrid "
         "with inconsistent parity; distinct = distinct (monitor, case) digests"
-        " EXTENSIONS: + from_point with hand-built off-curve / other-curve PointJacobi objects, secrets handed over in caller-owned buffers that are wiped afterwards, leading-zero X / Y corpora, every refusal repeated three times, extended private keys holding an out-of-range scalar: twelve first uses on fresh objects must each raise; use-time errors of accepted keys count, wrong-length twins of keys the process has already constructed, SEC forms of points with a coordinate in [n, p)")
+        " EXTENSIONS: + from_point with hand-built off-curve / other-curve PointJacobi objects, secrets handed over in caller-owned buffers that are wiped afterwards, leading-zero X / Y corpora, every refusal repeated three times, extended private keys holding an out-of-range scalar: twelve first uses on fresh objects must each raise; use-time errors of accepted keys count, wrong-length twins of keys the process has already constructed, SEC forms of points with a coordinate in [n, p), encodings of one x in chosen orders with refused ones first (sec_order)")
 LEVEL_TEXT = ("Every PrivateKey construction / wif / from_wif and PublicKey.parse / sec execution is compared with own "
               "secp256k1 arithmetic and an independent Base58Check codec; rejection is judged by outcome (must raise). "
               "Encodings that ecdsa additionally accepts (raw 64-byte, hybrid 06/07) are sound iff the returned point is the "
@@ -262,6 +262,40 @@ def judge_reject_twin(ctx, case):
     return res
 
 
+def judge_sec_order(ctx, case):
+    """Encodings of ONE x coordinate offered one after the other in a chosen order - valid compressed, valid uncompressed, the
+    parity twin, and INVALID uncompressed forms (y altered, y = 0, x and y swapped) that must be refused: a refused request must
+    not shape what a later legal request for the same x returns (and the other way round)."""
+    from btc_hd_wallet.keys import PublicKey
+    pt = secp.gmul(case["k"])
+    x, y = pt
+    P = secp.P
+    xb = x.to_bytes(32, "big")
+    forms = {"comp": (secp.ser(pt, True), pt), "uncomp": (secp.ser(pt, False), pt), "twin": (secp.ser((x, P - y), True), (x, P - y)),
+             "bad-y+1": (b"\x04" + xb + ((y + 1) % P).to_bytes(32, "big"), None), "bad-y=0": (b"\x04" + xb + b"\x00" * 32, None),
+             "bad-y-flip": (b"\x04" + xb + (y ^ 1).to_bytes(32, "big"), None)}
+    bad = []
+    for step, name in enumerate(case["order"]):
+        raw, want = forms[name]
+        try:
+            K = PublicKey.parse(raw)
+            got = (K.sec(True), K.sec(False))
+            err = None
+        except Exception as e:  # noqa
+            got, err = None, e
+        if want is None:
+            if err is None:
+                bad.append(("invalid_accepted@%d:%s" % (step, name), "raise", got[1][:8]))
+        elif err is not None:
+            bad.append(("valid_refused@%d:%s" % (step, name), "key", err))
+        elif got != (secp.ser(want, True), secp.ser(want, False)):
+            bad.append(("wrong_point@%d:%s" % (step, name), secp.ser(want, False)[:12], got[1][:12]))
+        if bad:
+            break
+    return ctx.judge("reject_sec", not bad, case, None, bad[:2], cls="order|" + ">".join(case["order"][:3]),
+                     mech="C09.sec_order." + (bad[0][0].split("@")[0] if bad else ""))
+
+
 def judge_reject_sec(ctx, case):
     from btc_hd_wallet.keys import PublicKey
     raw = case["raw"]
@@ -444,6 +478,11 @@ def run(ctx):
             if ctx.mine(n):
                 judge_reject_sec(ctx, {"raw": secp.ser(pt, True), "tag": "coordinate>=n"})
                 judge_reject_sec(ctx, {"raw": secp.ser(pt, False), "tag": "coordinate>=n"})
+        # ---- orders of refused and accepted encodings of one x (fresh x each time)
+        names = ["comp", "uncomp", "twin", "bad-y+1", "bad-y=0", "bad-y-flip"]
+        for j in range(ctx.scale(96, 6000)):
+            order = [rnd.choice(names[3:])] + rnd.sample(names, 4) if j % 2 == 0 else rnd.sample(names, 5)
+            judge_sec_order(ctx, {"k": rnd.randrange(1, N), "order": order})
         # ---- SEC rejection / leniency
         for ln in range(0, 71):
             n += 1
@@ -512,5 +551,7 @@ def replay(ctx, monitor, case):
         judge_reject_scalar(ctx, case)
     elif monitor == "reject_point":
         judge_reject_point(ctx, case)
+    elif monitor == "reject_sec" and "order" in case:
+        judge_sec_order(ctx, case)
     else:
         judge_reject_sec(ctx, case)
